@@ -126,6 +126,9 @@ func Notify(c chan<- os.Signal, sig ...os.Signal) {
 	}
 }
 
+// HasSignalHandler reports whether the program has called signal.Notify.
+func (s *Sim) HasSignalHandler() bool { return len(s.Boot.sigCh) > 0 }
+
 // Signal delivers a signal to the simulated process (harness use). Like the
 // os/signal package it never blocks.
 func (s *Sim) Signal(sig os.Signal) {
